@@ -11,7 +11,8 @@
  * MODE 1 cbcenc  2 cbcdec  3 ctr  4 ctrcbc_encrypt  5 ctrcbc_decrypt
  *      6 ctrcbc_ctr  7 ctrcbc_mac
  * KEYS_T INIT RUN KLEN LEN, IMPLK (see C12_ufcore.h)
- * DO_REF (compare with the definition), S_LO..S_HI (split points handled by
+ * CHECK_TAIL_COUNTER (MODE 3: also compare the returned counter when LEN is
+ * not a multiple of 16), DO_REF (compare with the definition), S_LO..S_HI (split points handled by
  * this query; the driver covers 0..LEN over the queries of one entry point)
  */
 #include "C12_ufcore.h"
@@ -183,6 +184,13 @@ int main(void)
 	for (int i = 0; i < IVL; i++) CHECK(macA[i] == macR[i], "CBC-MAC value equals the definition");
 #if MODE == 3
 	if (LEN % 16 == 0) CHECK(ccA == (uint32_t)(cc0 + LEN / 16), "returned counter == start + number of blocks (mod 2^32)");
+#ifdef CHECK_TAIL_COUNTER
+	/* final chunk with a partial block: the key-stream block of the partial
+	   block is consumed, so the "new counter value" is start + ceil(LEN/16);
+	   br_aesctr_drbg_generate() passes arbitrary lengths and continues with
+	   the returned value, i.e. relies on this to never reuse a block */
+	CHECK(ccA == ccR, "CTR with a partial final block: returned counter == start + number of key-stream blocks consumed (ceil(len/16))");
+#endif
 #endif
 #endif
 
